@@ -340,4 +340,21 @@ theorem fileHeader_ffs (n : Nat) (h : 32 ≤ n) : fileHeader (ffs n) = .ok none 
   simp only [if_true]
   rw [if_neg (by omega)]
 
+/-- … also when fewer than 8 bytes follow the erased 24-byte header (repaired reader, fix 8039e86) -/
+theorem fileHeader_ffs24 (n : Nat) (h : 24 ≤ n) : fileHeader (ffs n) = .ok none := by
+  by_cases h32 : 32 ≤ n
+  · exact fileHeader_ffs n h32
+  have e : ffs n = ffs 24 ++ ffs (n - 24) := by
+    unfold ffs; rw [List.replicate_append_replicate]; congr 1; omega
+  have r20 : rd (ffs n) 20 3 = 0xFFFFFF := by
+    rw [e, rd_append_left _ _ 20 3 (by simp [ffs])]; decide
+  have hl : (ffs n).length = n := by simp [ffs]
+  have ht : ((ffs n).take 24).all (· == 0xFF) = true := by
+    simp [ffs, List.take_replicate]
+  unfold fileHeader
+  simp only [r20, hl, ht]
+  rw [if_neg (by omega)]
+  simp only [if_true]
+  rw [if_pos (by omega)]
+
 end Fiano.Uefi
